@@ -77,6 +77,8 @@ class Outcome:
         self.violations = []      # dicts: sig, desc, replay(dict)
         self.inconclusive = []    # strings
         self.level = "exploration"
+        # a --replay run re-executes ONE recorded case: it must not replace the check's evidence file
+        self.is_replay = False
 
     def violation(self, sig, desc, replay):
         self.violations.append({"sig": sig, "desc": desc, "replay": replay})
@@ -139,10 +141,14 @@ class Outcome:
             "violations": len(unknown),
         }
         os.makedirs(EVIDENCE, exist_ok=True)
-        tmp = os.path.join(EVIDENCE, self.prop + ".json.tmp")
+        if self.is_replay:
+            target = os.path.join(REPLAY, self.prop + "-last-replay-result.json")
+        else:
+            target = os.path.join(EVIDENCE, self.prop + ".json")
+        tmp = target + ".tmp"
         with open(tmp, "w", encoding="utf-8") as f:
             json.dump(ev, f, indent=1, ensure_ascii=True)
-        os.replace(tmp, os.path.join(EVIDENCE, self.prop + ".json"))
+        os.replace(tmp, target)
         if unknown:
             verdict, code = "VIOLATED", 1
         elif self.inconclusive:
